@@ -350,6 +350,12 @@ static std::string tx_fields(const CTransaction& tx) {
     CDataStream so(SER_DISK, 0);
     SerializeTransaction(tx, so);
     s += " reser=" + HexStr(so) + " txid=" + tx.GetHash().GetHex() + " wtxid=" + tx.GetWitnessHash().GetHex();
+    // the copy tap makes before it fills in a witness (CTransaction -> CMutableTransaction -> CTransaction) must serialise to the same bytes
+    CMutableTransaction mt(tx);
+    CTransaction t2(mt);
+    CDataStream so2(SER_DISK, 0);
+    SerializeTransaction(t2, so2);
+    s += (HexStr(so2) == HexStr(so) && t2.GetHash() == tx.GetHash()) ? " mcopy=same" : " mcopy=" + HexStr(so2);
     return s;
 }
 static void do_tx(const kv& m) {
